@@ -4,6 +4,7 @@ operators x widths x signedness, sharing patterns (fan-out > 1), control
 structures, register idioms and array/RAM write shapes.  VERIF_SEED perturbs
 widths and constants of the families marked `var`; the fixed boundary members
 are always present, so a seed never removes coverage."""
+import os
 import random
 
 
@@ -249,6 +250,14 @@ def gen(seed=0):
             add(f"Chain_{nm}_{n}", mod(f"Chain_{nm}_{n}", ports, "    assign y = " + f" {op} ".join(f"x{i}" for i in range(n)) + ";"))
     ports = [(f"x{i}", "input ", lg(5)) for i in range(6)] + [("y", "output", lg(5))]
     add("Chain_mixed", mod("Chain_mixed", ports, "    assign y = x0 + x1 - x2 + (x3 & x4) - x5;"))
+
+    add("Dup_arms", mod("Dup_arms", [("a", "input ", lg(4)), ("b", "input ", lg(4)), ("y", "output", lg(4)), ("z", "output", lg(4)),
+                                     ("w", "output", lg(4))],
+                        "    always_comb {\n        y = b;\n        if a == 4'hb {\n        } else if a == 4'hf {\n            y = 4'd1;\n"
+                        "        } else if a == 4'h1 {\n        } else if a == 4'hf {\n        } else if a == 4'h9 {\n        } else if a == 4'hf {\n"
+                        "            y = 4'd2;\n        }\n    }\n    always_comb {\n        case a {\n            4'hb: z = 4'd5;\n"
+                        "            4'hf: z = 4'd1;\n            4'hf: z = 4'd2;\n            4'h3: z = b;\n            default: z = 4'd3;\n        }\n    }\n"
+                        "    assign w = if a == 4'd2 ? 4'd1 : if a == 4'd7 ? 4'd2 : if a == 4'd2 ? 4'd4 : if a == 4'd9 ? 4'd8 : b;"))
 
     # 8. hierarchy: per-instance parameters, tied-off child inputs, state in children, two levels
     def hier(name, children, ports, body):
@@ -550,6 +559,24 @@ def gen_opt(seed=0):
             body.append(f"        {kw} (s & {mw}'h{m:x}) == {mw}'h{k:x} {{\n            o = {v};")
         body += ["        }", "    }"]
         add(name, mod(name, [("s", "input ", lg(mw)), ("o", "output", lg(2))], "\n".join(body)))
+    for W in (16, 40):
+        # a folded constant default wider than its self-determined width, then a guarded override (version split)
+        name = f"O_constdef_{W}"
+        add(name, mod(name, [("a", "input ", lg(4)), ("s", "input ", "logic"), ("y0", "output", lg(W)), ("y1", "output", lg(W))],
+                      f"    var v0: logic<{W}>;\n    always_comb {{\n        v0 = (~8'h6);\n        if s {{\n            v0 = a;\n        }}\n    }}\n"
+                      "    assign y0 = v0;\n    assign y1 = (-4'h3) ^ a;"))
+    for W in (65, 70, 128):
+        # ternary with a 1-bit-producing branch inside a context wider than 64 bits
+        name = f"O_ternwide_{W}"
+        add(name, mod(name, [("a", "input ", lg(W)), ("c", "input ", lg(5)), ("d", "input ", lg(3)), ("y", "output", lg(W)),
+                             ("z", "output", lg(W))],
+                      "    assign y = (if c[0] ? (&c) : d) + a;\n    assign z = (if c[1] ? (c == 5'd1) : (d <: c)) | a;"))
+    for W in (4, 7):
+        # selects of signed variables inside signed contexts
+        name = f"O_sgnsel_{W}"
+        add(name, mod(name, [("a", "input ", lg(W, True)), ("b", "input ", lg(W, True))] + [(f"y{k}", "output", lg(2 * W)) for k in range(7)],
+                      f"    assign y0 = ~a[1];\n    assign y1 = -a[2:1];\n    assign y2 = a[1] + b;\n    assign y3 = a[{W - 1}:{W - 2}] ^ b;\n"
+                      f"    assign y4 = if b[0] ? a[{W - 1}:{W - 2}] : b;\n    assign y5 = a[{W - 1}:{W - 2}] <: b;\n    assign y6 = a[{W - 1}:{W - 2}] >>> 1;"))
     name = "O_dup"
     add(name, mod(name, [("a", "input ", lg(6)), ("b", "input ", lg(6)), ("p", "output", lg(6)), ("q", "output", lg(6)),
                          ("r", "output", lg(6))],
@@ -577,7 +604,7 @@ class _RandMod:
         self.pool = []       # previously generated expression texts (for sharing)
         self.lines = []
         self.ports = []
-        self.nosel = set()   # signed variables: never bit-/part-selected here (see known finding C18 signed-select)
+        self.nosel = set()   # signed variables that must not be bit-/part-selected (VERIF_NO_SIGNED_SELECT, debugging aid)
 
     def w(self, small=False):
         return self.r.choice(self.WIDTHS[:12] if small else self.WIDTHS)
@@ -632,6 +659,7 @@ class _RandMod:
         return e
 
     def cond(self, vals, depth=0):
+        """a 1-bit condition (a wider one is accepted with a warning and is not generated here)"""
         r = self.r
         k = r.random()
         if k < 0.35:
@@ -640,12 +668,16 @@ class _RandMod:
                 lo = r.randrange(w)
                 hi = min(w - 1, lo + r.randrange(3))
                 return f"{t}[{hi}:{lo}] == {self.const(hi - lo + 1)}"
-            return t
-        if k < 0.55:
-            return f"({self.cond(vals, depth + 1)} {r.choice(['&&', '||'])} {self.cond(vals, depth + 1)})" if depth < 2 else self.atom(vals)
+            if w == 1:
+                return t
+            return f"({t} != {self.const(w)})"
+        if k < 0.55 and depth < 2:
+            return f"({self.cond(vals, depth + 1)} {r.choice(['&&', '||'])} {self.cond(vals, depth + 1)})"
         if k < 0.65:
             return f"!({self.atom(vals)} == {self.const(3)})"
-        return self.expr(vals, depth + 1)
+        if k < 0.8:
+            return f"({r.choice(['|', '&', '^'])}{self.atom(vals)})"
+        return f"({self.expr(vals, depth + 1)} {r.choice(['==', '!=', '<:', '>='])} {self.expr(vals, depth + 2)})"
 
     def stmts(self, owned, vals, depth, n, ind):
         r = self.r
@@ -710,7 +742,7 @@ class _RandMod:
             sg = r.random() < 0.15 and w > 1
             self.ports.append((f"i{'abcdefg'[i]}", "input ", lg(w, sg)))
             self.vals.append((f"i{'abcdefg'[i]}", w))
-            if sg:
+            if sg and os.environ.get("VERIF_NO_SIGNED_SELECT"):
                 self.nosel.add(f"i{'abcdefg'[i]}")
         has_arr = r.random() < 0.45
         if has_arr:
